@@ -56,7 +56,7 @@ CONSTANTS Peers,        \* peer names
 ASSUME DecayMax = 0 \/ Silence = 0
 ASSUME Split => DecayMax = 0
 
-NoTag == 0 - 1
+NoTag == 0 - 99      \* sentinel outside every value set (tag values may be negative)
 MaxVal == CHOOSE v \in Vals : \A w \in Vals : w <= v
 
 VARIABLES kind,    \* [Peers -> {"n","t","c"}]  not tracked / temporary entry (early tags) / connected
